@@ -366,8 +366,11 @@ func (h *genericContextualizer) calculateCacheKey(
 	hash := sha256.New()
 	hash.Write(h.e.Hash())
 	hash.Write(stringx.ToBytes(h.id))
+	hash.Write([]byte{0})
 	hash.Write(stringx.ToBytes(strings.Join(h.fwdHeaders, ",")))
+	hash.Write([]byte{0})
 	hash.Write(stringx.ToBytes(strings.Join(h.fwdCookies, ",")))
+	hash.Write([]byte{0})
 
 	// the values of the forwarded headers and cookies are part of the request sent to
 	// the endpoint. So, the response may depend on them.
@@ -396,6 +399,7 @@ func (h *genericContextualizer) calculateCacheKey(
 	}
 
 	hash.Write(stringx.ToBytes(payload))
+	hash.Write([]byte{0})
 	hash.Write(ttlBytes)
 	hash.Write(sub.Hash())
 
